@@ -1,6 +1,6 @@
 (* C13 proofs, part 5: the close status table, one name = one stream, what is
    true and what is false about write failures and about the single writer. *)
-From Verif Require Import Lib.Base Model.Streams Proofs.StreamsBase Proofs.StreamsSpec Proofs.StreamsStdout.
+From Verif Require Import Lib.Base Model.Streams Proofs.StreamsBase Proofs.StreamsSpec Proofs.StreamsStdout Proofs.StreamsOrder.
 
 (* ---- close() ---- *)
 (* iostream.go waitExitCode *)
@@ -33,10 +33,62 @@ Proof.
     + destruct (close_ostream E _ n os) as [[s1 code] err] eqn:Ec.
       destruct (close_ostream_good _ _ _ _ _ _ _ (good_aremove E s n Hg) (good_lookup _ _ _ _ Hg El) Ec) as (_ & Hc).
       intros H; injection H as <- <-. split; auto. cbn [st_obs add_obs]. eexists.
-      f_equal. f_equal. destruct (os_kind os).
-      * injection Hc as -> ->. auto.
-      * rewrite <- wait_result_table. rewrite <- Hc. auto.
+      f_equal. f_equal. rewrite Hc. destruct (os_kind os); auto. apply wait_result_table.
     + intros H; injection H as <- <-. split; auto. cbn [st_obs add_obs]. eauto.
+Qed.
+
+(* close() of a command stream, whatever happens to the final Flush of goawk's
+   buffered data into the command's stdin (EPIPE because the command has closed
+   or never read its stdin, an earlier sticky error, nothing buffered) and
+   whatever state standard output is in: Close always goes on to Wait for the
+   command, logs that (EvClose) and returns the command's own exit status;
+   -1 only as waitExitCode says (I/O error of Wait, or a command that exited 0
+   whose stdout copy failed). *)
+Lemma deliver_kind E s n o data : os_kind (snd (deliver E s n o data)) = os_kind o.
+Proof.
+  unfold deliver. destruct data as [|b d]; auto. destruct (os_kind o) eqn:Ek.
+  - destruct (os_off o); cbn [snd os_kind]; auto.
+  - destruct (c_drain (e_spec E n)); cbn [snd os_kind]; auto.
+    destruct (c_echo (e_spec E n)); cbn [snd]; auto. destruct (child_out _ _ _ _). cbn [snd os_kind]. auto.
+Qed.
+
+Lemma flush_ostream_kind E s n o : os_kind (snd (flush_ostream E s n o)) = os_kind o.
+Proof.
+  unfold flush_ostream. pose proof (deliver_kind E s n o (os_buf o)) as H. destruct (deliver _ _ _ _ _) as [s1 o1].
+  cbn [snd os_kind] in *. auto.
+Qed.
+
+Theorem close_cmd_waits_and_reports E s n os s' oc :
+  alookup n (st_ins s) = None -> alookup n (st_outs s) = Some os -> os_kind os = KCmd ->
+  step E s (Close n) = (s', oc) ->
+  oc = Running /\
+  exists copy_failed rest l,
+    let code := fst (wait_result (c_exit (e_spec E n)) copy_failed) in
+    st_obs s' = ORet code :: rest /\ st_log s' = EvClose n false code :: l.
+Proof.
+  intros Hi Ho Hk. cbn [step]. rewrite Hi, Ho. unfold close_ostream.
+  pose proof (flush_ostream_kind E (set_outs s (aremove n (st_outs s))) n os) as Hk1.
+  destruct (flush_ostream E _ n os) as [s1 o1]. cbn [snd] in Hk1. rewrite Hk1, Hk.
+  destruct (child_eof E s1 (os_cgfail o1)) as [s2 ok].
+  destruct (wait_result (c_exit (e_spec E n)) (negb ok)) as [code err] eqn:Ew.
+  intros H; injection H as <- <-. split; auto.
+  exists (negb ok), (st_obs (if close_timing E n os s2 then set_unmod (if err || os_err o1 then print_errorf E (add_log s2 (EvClose n false code)) else add_log s2 (EvClose n false code))
+                               else (if err || os_err o1 then print_errorf E (add_log s2 (EvClose n false code)) else add_log s2 (EvClose n false code)))),
+         (st_log s2).
+  rewrite Ew. cbn [fst st_obs st_log add_obs]. split; auto.
+  destruct (close_timing E n os s2); cbn [st_log set_unmod]; (destruct (err || os_err o1); [unfold print_errorf; rewrite (proj1 (flush_stdout_log E _))|]; reflexivity).
+Qed.
+
+(* in particular: a non-zero exit status, a signal or a core dump is always reported as such *)
+Theorem close_cmd_status_nonzero E s n os s' oc :
+  alookup n (st_ins s) = None -> alookup n (st_outs s) = Some os -> os_kind os = KCmd ->
+  c_exit (e_spec E n) <> Exited 0 ->
+  step E s (Close n) = (s', oc) ->
+  exists rest, st_obs s' = ORet (wait_code (c_exit (e_spec E n))) :: rest.
+Proof.
+  intros Hi Ho Hk Hne Hs. destruct (close_cmd_waits_and_reports _ _ _ _ _ _ Hi Ho Hk Hs) as (_ & cf & rest & l & Hobs & _).
+  exists rest. rewrite Hobs. f_equal. f_equal. destruct (c_exit (e_spec E n)) as [e| | |]; cbn; auto.
+  destruct (e =? 0) eqn:E0; auto. apply Z.eqb_eq in E0. subst. congruence.
 Qed.
 
 (* ---- one name, one stream ---- *)
@@ -50,7 +102,7 @@ Qed.
 
 (* and such a print adds nothing to the log but the write itself *)
 Theorem print_to_open_stream E s n r ps os : amem n (st_ins s) = false -> alookup n (st_outs s) = Some os ->
-  exists s' os', step E s (Print (DRedir r n) ps) = (set_outs s' (aset n os' (st_outs s')), Running) /\
+  exists s' os', step E s (Print (DRedir r n) ps) = (set_outs s' (aset n os' (st_outs s')), if os_err os' then Fail else Running) /\
     write_ostream E (add_log s (EvWrite (match os_kind os with KFile => WFile n | KCmd => WCmd n end) (concat ps))) n os (concat ps) = (s', os').
 Proof.
   intros Hi Ho. cbn [step]. unfold get_output_stream, amem at 2. rewrite Hi, Ho. rewrite Ho.
